@@ -32,6 +32,11 @@ fn gen(seed: u64, idx: u64, _tier: Tier) -> Plan {
     plan.world.faults.s2c_drop = 0;
     plan.world.faults.c2s_phantom = 0;
     plan.world.faults.c2s_truncate = 0;
+    if idx % 3 == 2 {
+        // a response that cannot be sent (one client's loss) must not cost the clients queued
+        // behind it in the batch theirs
+        plan.world.faults.send_err = *rng.pick(&[0u32, 30, 100]);
+    }
     plan.world.rcv_cap = 4096;
     plan.server = Some(s);
     let clients = 1 + rng.below(64) as u32;
